@@ -508,39 +508,6 @@ val response : packet -> z -> packet
 
 val new_packet : z -> bytes -> bytes -> packet res
 
-val slice : bytes -> nat -> nat -> bytes res
-
-val xor_at : bytes -> nat -> bytes -> bytes
-
-val nup_loop :
-  (bytes -> bytes) -> nat -> bytes -> bytes -> bytes -> nat -> bytes res
-
-val new_user_password :
-  (bytes -> bytes) -> bytes -> bytes -> bytes -> bytes res
-
-val up_loop :
-  (bytes -> bytes) -> nat -> bytes -> bytes -> bytes -> nat -> bytes res
-
-val user_password : (bytes -> bytes) -> bytes -> bytes -> bytes -> bytes res
-
-val xor_block : bytes -> nat -> bytes -> bytes res
-
-val ntp_loop :
-  (bytes -> bytes) -> nat -> nat -> bytes -> bytes -> bytes -> bytes -> bytes
-  res
-
-val salt_msb_set : n -> bool
-
-val new_tunnel_password :
-  (bytes -> bytes) -> bytes -> bytes -> bytes -> bytes -> bytes res
-
-val tp_loop :
-  (bytes -> bytes) -> nat -> nat -> bytes -> bytes -> bytes -> bytes -> bytes
-  -> bytes res
-
-val tunnel_password :
-  (bytes -> bytes) -> bytes -> bytes -> bytes -> (bytes * bytes) res
-
 val dec_uint : guard list -> bytes -> n res
 
 val integer : bytes -> n res
@@ -606,6 +573,159 @@ val cidr_mask : nat -> nat -> bytes
 val low_zero : n -> nat -> bool
 
 val ipv6prefix : bytes -> (bytes * bytes) res
+
+val slice : bytes -> nat -> nat -> bytes res
+
+val xor_at : bytes -> nat -> bytes -> bytes
+
+val nup_loop :
+  (bytes -> bytes) -> nat -> bytes -> bytes -> bytes -> nat -> bytes res
+
+val new_user_password :
+  (bytes -> bytes) -> bytes -> bytes -> bytes -> bytes res
+
+val up_loop :
+  (bytes -> bytes) -> nat -> bytes -> bytes -> bytes -> nat -> bytes res
+
+val user_password : (bytes -> bytes) -> bytes -> bytes -> bytes -> bytes res
+
+val xor_block : bytes -> nat -> bytes -> bytes res
+
+val ntp_loop :
+  (bytes -> bytes) -> nat -> nat -> bytes -> bytes -> bytes -> bytes -> bytes
+  res
+
+val salt_msb_set : n -> bool
+
+val new_tunnel_password :
+  (bytes -> bytes) -> bytes -> bytes -> bytes -> bytes -> bytes res
+
+val tp_loop :
+  (bytes -> bytes) -> nat -> nat -> bytes -> bytes -> bytes -> bytes -> bytes
+  -> bytes res
+
+val tunnel_password :
+  (bytes -> bytes) -> bytes -> bytes -> bytes -> (bytes * bytes) res
+
+val vSA_TYPE : z
+
+val walk : nat -> bytes -> (n * bytes) list * bytes
+
+val subattrs : bytes -> (n * bytes) list * bytes
+
+val vsa_payload : n -> avp -> bytes option
+
+val values_of : n -> (n * bytes) list -> bytes list
+
+val gets_vendor : n -> n -> attrs -> bytes list
+
+val vendor_tlv : n -> bytes -> bytes
+
+val add_vendor : n -> n -> bytes -> attrs -> attrs res
+
+val strip : n -> bytes -> bool * bytes
+
+val del_vendor : n -> n -> attrs -> attrs
+
+val set_vendor : n -> n -> bytes -> attrs -> attrs res
+
+type hkind =
+| KBytes
+| KConcat
+| KIP4
+| KIP6
+| KIFID
+| KPrefix
+| KDate
+| KInt of nat
+| KByte
+
+type hdesc = { h_type : z; h_kind : hkind; h_tag : bool; h_enc : z;
+               h_size : z option; h_vendor : n option }
+
+type gv = { g_b : bytes; g_u : z; g_mask : bytes }
+
+val gv_b : bytes -> gv
+
+val gv_u : z -> gv
+
+val e_noattr : n
+
+val forced_salt : bytes -> bytes
+
+val tp_wrap : (bytes -> bytes) -> packet -> bytes -> bytes -> bytes res
+
+val h_encode :
+  (bytes -> bytes) -> hdesc -> packet -> bytes -> n -> gv -> bytes res
+
+val chunks : nat -> bytes -> bytes list
+
+val h_add :
+  (bytes -> bytes) -> hdesc -> packet -> bytes -> n -> gv -> packet res
+
+val h_set :
+  (bytes -> bytes) -> hdesc -> packet -> bytes -> n -> gv -> packet res
+
+val h_del : hdesc -> packet -> packet res
+
+val h_decode :
+  (bytes -> bytes) -> hdesc -> packet -> packet -> bytes -> (n * gv) res
+
+val h_raw : hdesc -> packet -> bytes list
+
+val h_lookup : (bytes -> bytes) -> hdesc -> packet -> packet -> (n * gv) res
+
+val decode_all :
+  (bytes -> bytes) -> hdesc -> packet -> packet -> bytes list -> (n * gv)
+  list res
+
+val h_gets :
+  (bytes -> bytes) -> hdesc -> packet -> packet -> (n * gv) list res
+
+type heap = bytes list
+
+type slice0 = { s_addr : nat; s_off : nat; s_len : nat }
+
+val cell : heap -> nat -> bytes
+
+val rd : heap -> slice0 -> bytes
+
+val alloc : heap -> bytes -> heap * slice0
+
+val set_nth : nat -> 'a1 -> 'a1 list -> 'a1 list
+
+val wr : heap -> slice0 -> nat -> n -> heap
+
+type mpacket = { mp_code : z; mp_ident : n; mp_auth : bytes;
+                 mp_secret : slice0; mp_attrs : (z * slice0) list }
+
+val pview : heap -> mpacket -> packet
+
+val sub_slices : n -> slice0 -> nat -> (n * bytes) list -> slice0 list
+
+val m_raw : hdesc -> heap -> mpacket -> slice0 list
+
+val is_tagged_int : hdesc -> bool
+
+type mval = { v_tag : n; v_b : slice0; v_u : z; v_mask : slice0 }
+
+val give : heap -> (n * gv) -> heap * mval
+
+val clear_tag : bool -> hdesc -> heap -> slice0 -> heap
+
+val m_lookup :
+  (bytes -> bytes) -> bool -> hdesc -> heap -> mpacket -> packet ->
+  heap * mval res
+
+val m_gets_loop :
+  (bytes -> bytes) -> bool -> hdesc -> heap -> mpacket -> packet -> slice0
+  list -> heap * mval list res
+
+val m_gets :
+  (bytes -> bytes) -> bool -> hdesc -> heap -> mpacket -> packet ->
+  heap * mval list res
+
+val val_view : heap -> mval -> n * gv
 
 val e_nonauth : n
 
@@ -836,20 +956,20 @@ val parse_root :
   bool -> (str -> (str * bytes) option) -> nat -> str -> bytes -> dict
   pres * ioev list
 
-type heap = vendor list
+type heap0 = vendor list
 
 type pdict = { p_attrs : attr list; p_values : value list;
                p_vendors : nat list }
 
-val deref : heap -> nat -> vendor
+val deref : heap0 -> nat -> vendor
 
-val view : heap -> pdict -> dict
+val view : heap0 -> pdict -> dict
 
-val ptr_by_name : heap -> nat list -> str -> nat option
+val ptr_by_name : heap0 -> nat list -> str -> nat option
 
-val ptr_by_number : heap -> nat list -> z -> nat option
+val ptr_by_number : heap0 -> nat list -> z -> nat option
 
-val index_by_number : heap -> nat list -> z -> nat -> nat option
+val index_by_number : heap0 -> nat list -> z -> nat -> nat option
 
 val opt_nat_eqb : nat option -> nat option -> bool
 
@@ -863,13 +983,13 @@ val e_merge_vattr : n
 
 val check_attrs : pdict -> pdict -> bool
 
-val check_vendors : heap -> pdict -> nat list -> n option
+val check_vendors : heap0 -> pdict -> nat list -> n option
 
-val assemble : bool -> heap -> nat list -> nat list -> heap * nat list
+val assemble : bool -> heap0 -> nat list -> nat list -> heap0 * nat list
 
-val merge : bool -> heap -> pdict -> pdict -> (heap * pdict) res
+val merge : bool -> heap0 -> pdict -> pdict -> (heap0 * pdict) res
 
-val load : heap -> dict -> heap * pdict
+val load : heap0 -> dict -> heap0 * pdict
 
 val popcount : n -> nat
 
@@ -964,81 +1084,6 @@ val spec_get_asymmetric_start_key :
 val spec_make_key :
   (bytes -> bytes) -> (bytes -> bytes) -> (bytes -> bytes) -> bytes -> bytes
   -> bool -> bytes res
-
-val vSA_TYPE : z
-
-val walk : nat -> bytes -> (n * bytes) list * bytes
-
-val subattrs : bytes -> (n * bytes) list * bytes
-
-val vsa_payload : n -> avp -> bytes option
-
-val values_of : n -> (n * bytes) list -> bytes list
-
-val gets_vendor : n -> n -> attrs -> bytes list
-
-val vendor_tlv : n -> bytes -> bytes
-
-val add_vendor : n -> n -> bytes -> attrs -> attrs res
-
-val strip : n -> bytes -> bool * bytes
-
-val del_vendor : n -> n -> attrs -> attrs
-
-val set_vendor : n -> n -> bytes -> attrs -> attrs res
-
-type hkind =
-| KBytes
-| KConcat
-| KIP4
-| KIP6
-| KIFID
-| KPrefix
-| KDate
-| KInt of nat
-| KByte
-
-type hdesc = { h_type : z; h_kind : hkind; h_tag : bool; h_enc : z;
-               h_size : z option; h_vendor : n option }
-
-type gv = { g_b : bytes; g_u : z; g_mask : bytes }
-
-val gv_b : bytes -> gv
-
-val gv_u : z -> gv
-
-val e_noattr : n
-
-val forced_salt : bytes -> bytes
-
-val tp_wrap : (bytes -> bytes) -> packet -> bytes -> bytes -> bytes res
-
-val h_encode :
-  (bytes -> bytes) -> hdesc -> packet -> bytes -> n -> gv -> bytes res
-
-val chunks : nat -> bytes -> bytes list
-
-val h_add :
-  (bytes -> bytes) -> hdesc -> packet -> bytes -> n -> gv -> packet res
-
-val h_set :
-  (bytes -> bytes) -> hdesc -> packet -> bytes -> n -> gv -> packet res
-
-val h_del : hdesc -> packet -> packet res
-
-val h_decode :
-  (bytes -> bytes) -> hdesc -> packet -> packet -> bytes -> (n * gv) res
-
-val h_raw : hdesc -> packet -> bytes list
-
-val h_lookup : (bytes -> bytes) -> hdesc -> packet -> packet -> (n * gv) res
-
-val decode_all :
-  (bytes -> bytes) -> hdesc -> packet -> packet -> bytes list -> (n * gv)
-  list res
-
-val h_gets :
-  (bytes -> bytes) -> hdesc -> packet -> packet -> (n * gv) list res
 
 type key = n * n
 
@@ -1708,9 +1753,9 @@ val opener_of : bytes list -> bytes -> (bytes * bytes) option
 
 val dispatch_dict : bytes -> bytes list -> z list -> tok list option
 
-val load_all : heap -> bytes list -> (heap * pdict list) option
+val load_all : heap0 -> bytes list -> (heap0 * pdict list) option
 
-val chain : bool -> heap -> pdict -> pdict list -> (heap * pdict) res
+val chain : bool -> heap0 -> pdict -> pdict list -> (heap0 * pdict) res
 
 val dispatch_merge : bytes -> bytes list -> z list -> tok list option
 
@@ -1727,5 +1772,17 @@ val t_tv : hdesc -> (n * gv) -> tok list
 val run_hops : hdesc -> packet -> packet -> z list -> bytes list -> tok list
 
 val dispatch_helper : bytes -> bytes list -> z list -> tok list option
+
+val scribble : heap -> slice0 -> heap
+
+val scribble_val : heap -> mval -> heap
+
+val run_mem :
+  bool -> hdesc -> heap -> mpacket -> packet -> mval list -> z list -> tok
+  list
+
+val place : bytes list -> z list -> nat -> (z * slice0) list
+
+val dispatch_mem : bytes -> bytes list -> z list -> tok list option
 
 val dispatch : bytes -> bytes list -> z list -> tok list
